@@ -1317,6 +1317,8 @@ def sweep_as_app_case(rng):
     out = []
     for selfmode in (True, False):
         w = World(rng, selfmode=selfmode, denymode=False)
+        if w.self is not None:
+            w.self = [w.my4, w.my6, w.my4b, w.my6b]      # the application judges take every frame of the sweep as deliverable
         # (frames on the derived multicast MACs are only for us when a self-IP list is configured: kept out of this use)
         c = acase(w, [('F', f) for f in l24_request_sweep(rng, w) if f[:6] in (w.mac, BCAST)], ['request-mac-source-sweep', 'header-field-sweep'])
         out.append(c)
@@ -2663,7 +2665,8 @@ def proj_probe(r):
     if outcome(r) != 'reply':
         return (outcome(r),)
     d = split_reply(bytes.fromhex(r))
-    return ('reply', d.get('l2'), d.get('ip'), d.get('tcp'), d.get('udp'), mask_env(d.get('app')) if d.get('app') is not None else d.get('l4') or d.get('arp'))
+    # (the UDP length is left out: it follows from the payload, whose wall-clock text may change length with the date)
+    return ('reply', d.get('l2'), d.get('ip'), d.get('tcp'), (d.get('udp') or (None,))[:2], mask_env(d.get('app')) if d.get('app') is not None else d.get('l4') or d.get('arp'))
 
 
 def flow_key(f):
